@@ -17,16 +17,16 @@ import (
 // ------------------------------------------------------------------ C13
 
 type scSpec struct {
-	Initial   int      `json:"initial"`
-	Requests  []int    `json:"requests"`  // scale targets (may be <1)
-	Unknown   []int    `json:"unknown"`   // indexes of requests issued against an unknown name
-	CmdRest   string   `json:"cmd_rest"`
-	Descr     string   `json:"descr"`
+	Initial   int            `json:"initial"`
+	Requests  []int          `json:"requests"` // scale targets (may be <1)
+	Unknown   []int          `json:"unknown"`  // indexes of requests issued against an unknown name
+	CmdRest   string         `json:"cmd_rest"`
+	Descr     string         `json:"descr"`
 	Vars      map[string]any `json:"vars,omitempty"`
 	GVars     map[string]any `json:"gvars,omitempty"`
-	DepOnBy   bool     `json:"dep_on_by"`
-	LogLoc    bool     `json:"log_loc"`
-	ViaClient bool     `json:"via_client"`
+	DepOnBy   bool           `json:"dep_on_by"`
+	LogLoc    bool           `json:"log_loc"`
+	ViaClient bool           `json:"via_client"`
 }
 
 func (sp *scSpec) yaml(worldID, replicas int, dir string) string {
@@ -335,7 +335,7 @@ func runScale(c fw.Case) fw.Result {
 func init() {
 	fw.Register(&fw.Property{
 		ID: "C13", Level: "exploration",
-		Rule: "sequences of 1-6 scale requests over {1,2,3,9,10,11,(99,100,101)} incl. no-ops, n<1 and unknown names on a long-running process with templated command/description/log_location, variables and a dependency, next to an unrelated process; after every request: listed replica set, per-replica configuration vs a fresh load with replicas: n (field projection, canonical JSON), launch environment/arguments of added replicas, launches = added, signals = removed, bystander untouched, request outcome; distinct = request sequence + templates",
+		Rule:        "sequences of 1-6 scale requests over {1,2,3,9,10,11,(99,100,101)} incl. no-ops, n<1 and unknown names on a long-running process with templated command/description/log_location, variables and a dependency, next to an unrelated process; after every request: listed replica set, per-replica configuration vs a fresh load with replicas: n (field projection, canonical JSON), launch environment/arguments of added replicas, launches = added, signals = removed, bystander untouched, request outcome; distinct = request sequence + templates",
 		Assumptions: []string{"a fresh loader.Load of the same YAML with replicas: n is the reference", "quiescence = expected number of live simulated commands reached (bounded 5 s), used to pace the history only"},
 		Gen: func(seed int64, tier string) []fw.Case {
 			var cs []fw.Case
